@@ -150,6 +150,27 @@ pub fn step(st: &mut St, toks: &[&str]) -> String {
                 _ => "bad-op".into(),
             }
         }
+        // C17: feed `nbytes` bytes (byte i = pat_byte(seed, i mod 2^20)) through the real `update`
+        // in 1 MiB calls
+        ["skein", "stream", slot, nbytes, seed] => {
+            let k = slot!(slot);
+            match (nbytes.parse::<u64>(), seed.parse::<u64>()) {
+                (Ok(n), Ok(sd)) => {
+                    let chunk = pat_bytes(sd, 1 << 20);
+                    let mut left = n as usize;
+                    while left > 0 {
+                        let c = left.min(chunk.len());
+                        let r = update(st, k, &chunk[..c]);
+                        if r != "ok" {
+                            return r;
+                        }
+                        left -= c;
+                    }
+                    "ok".into()
+                }
+                _ => "bad-op".into(),
+            }
+        }
         ["skein", "clone", a, b] => {
             let (a, b) = (slot!(a), slot!(b));
             let c = match st.slots.get(&a) {
